@@ -2,9 +2,11 @@ From Coq Require Import List ZArith.
 From BQ Require Import circuit.CModel.
 From BQ Require Import circuit.CPickle.
 From BQ Require Import circuit.CViews.
+From BQ Require Import circuit.CFold.
 From Coq Require Extraction ExtrOcamlBasic.
 Extraction "circuit_model.ml" append extend append_circuit insert insert_circuit pop batch_pop replace
   batch_replace replace_with_circuit unfold unfold_all_fuel compress append_qudit insert_qudit pop_qudit
   renumber_qudits clear c_add c_iadd c_mul c_imul iter_ops riter_ops fwd_cycle params_of reduce
   points first_on last_on front rear dag_entry nexts prevs num_operations gate_counts graph_info
-  active_qudits depth dag_iter.
+  active_qudits depth dag_iter
+  fold straighten check_region.
